@@ -598,7 +598,7 @@ theorem N_handleSubmoduleLog (cfg : Cfg) (m : M) (l : L) :
 theorem submoduleShortTest_N (m : M) (l : L) : submoduleShortTest (N m) l = submoduleShortTest m l := by
   unfold submoduleShortTest
   nfields
-  cases m.st <;> simp [State.er, isHunkHeader]
+  cases m.st <;> simp [State.er, isHunkHeader, pairableHunkHeader]
 
 theorem handleSubmoduleShort_eq (cfg : Cfg) (m : M) (l : L) : handleSubmoduleShort cfg m l =
     if !submoduleShortTest m l || cfg.colorOnly then .ok (false, m)
@@ -2479,7 +2479,7 @@ theorem chain_plain (cfg : Cfg) (m0 m : M) (l : L) (e1 : handleCommitMeta cfg m0
   have e10 := handleSubmoduleLog_not_mine cfg m l no.submodule
   have e11 : handleSubmoduleShort cfg m l = .ok (false, m) := by
     unfold handleSubmoduleShort submoduleShortTest
-    rcases hst with h | h <;> simp [h, isHunkHeader]
+    rcases hst with h | h <;> simp [h, isHunkHeader, pairableHunkHeader]
   have e12 := handleMergeConflict_not_mine cfg m l hnc hnm
   have e13 : handleHunkLine cfg m l = .ok (false, m) := by unfold handleHunkLine; simp [hnh]
   have e15 : handleBlame cfg (emit m) l = .ok (false, emit (emit m)) := by
